@@ -169,8 +169,24 @@ def isolated_references(cases):
         return list(ex.map(one, cases))
 
 
+TYPE_NODE_FAMILY = [
+    # documents whose type nodes (variable types, type conditions) name DIFFERENT types: whatever is remembered about a
+    # type node of one document must not be applied to another document's
+    ("query ($v: Int) { echoInt(v: $v) }", {"v": 7}), ("query ($v: String) { echoStr(v: $v) }", {"v": "s"}),
+    ("query ($v: Boolean) { echoBool(v: $v) }", {"v": True}), ("query ($v: [Int]) { echoList(v: $v) }", {"v": [1, 2]}),
+    ("query ($v: Colr) { qfilt(colr: $v) }", {"v": "RED"}), ("query ($v: Filt) { qfilt(filt: $v) }", {"v": {"hasFriend": True}}),
+    ("query ($v: Int!) { echoInt(v: $v) }", {"v": 1}), ("query ($v: [Int!]!) { echoList(v: $v) }", {"v": [3]}),
+    ("{ pets { ... on Cat { name meow } } }", {}), ("{ pets { ... on Dog { name woof } } }", {}),
+    ("{ pets { ...F } } fragment F on Cat { meow }", {}), ("{ pets { ...F } } fragment F on Dog { woof }", {}),
+    ("{ pets { ... on Pet { __typename } } }", {}), ("{ ... on Query { ping } }", {}),
+    ("{ pets { __typename ... on Cat { n: name } ... on Dog { n: name } } }", {}),
+]
+
+
 def isolated_family():
     cases = [{"query": q, "variables": {}, "opname": None, "oracle_seed": 1, "root": None} for q in INVALID_VALID_FAMILY]
+    cases += [{"query": q, "variables": v, "opname": None, "oracle_seed": 5 + i, "root": None}
+              for i, (q, v) in enumerate(TYPE_NODE_FAMILY)]
     cases += [{"query": c["query"], "variables": c["variables"], "opname": None, "oracle_seed": 1, "root": None}
               for c in execgen.error_path_cases()]
     return cases
@@ -285,7 +301,7 @@ def main(tier_, replay=None):
     for rnd in range(2 if tier_ == "quick" else 6):
         history = list(fam)
         rng.shuffle(history)
-        history = history + [rng.choice(fam) for _ in range(len(fam))]
+        history = history + [rng.choice(fam) for _ in range(2 * len(fam))]
         rows = asyncio.run(run_schema(fs, history, rng, isolated=isolated))
         for i, (c, row) in enumerate(zip(history, rows)):
             total += 1
@@ -294,6 +310,37 @@ def main(tier_, replay=None):
                 if canon(resp) != canon(row["expected"]):
                     viol.append((fs, history[:i + 1], name, row["expected"], resp))
                     break
+    # the same family in a TIGHT loop on engines that do not keep documents alive (no cache, capacity 1): nothing else
+    # allocates in between, so anything remembered by identity of a freed document's nodes is hit again
+    async def tight():
+        import tartiflette
+        out = []
+        for cname, kw in (("disabled", {"query_cache_decorator": None}),
+                          ("lru(1)", {"query_cache_decorator": functools.lru_cache(maxsize=1)})):
+            rec, oref = execgen.Recorder(), [None, {"ctx": 1}]
+            orig = tartiflette.create_engine
+
+            async def patched(*a, _kw=kw, **k):
+                k.update(_kw)
+                return await orig(*a, **k)
+            tartiflette.create_engine = patched
+            try:
+                eng = await execgen.build_engine(fs, fresh_schema_name("c16tight"), oref, rec)
+            finally:
+                tartiflette.create_engine = orig
+            hist = []
+            for _ in range(150 if tier_ == "quick" else 1500):
+                c = rng.choice(fam)
+                hist.append(c)
+                oref[0] = execgen.Oracle(fs, c["oracle_seed"], 0.05, 0.08)
+                resp = await eng.execute(c["query"], operation_name=c.get("opname"), variables=c["variables"], context=oref[1])
+                if canon(resp) != canon(isolated[id(c)]):
+                    out.append((fs, list(hist), cname + " (tight loop)", isolated[id(c)], resp))
+                    break
+        return out
+    tv = asyncio.run(tight())
+    total += 2 * (150 if tier_ == "quick" else 1500)
+    viol += tv
     for s, hist, name, exp, got in viol[:5]:
         rep.violation({"property": "C16", "kind": "response differs from the fresh uncached engine's",
                        "cache_configuration": name, "sdl": gen.schema_sdl(s),
